@@ -731,6 +731,21 @@ func packagePrepareWalkFn(root string, ignoreRules *ignorefiles.Ruleset) filepat
 			return fmt.Errorf("module package path %q is symlink traversing out of the package root", relPath)
 		}
 
+		// The package directory is renamed once this walk is done, so a
+		// symlink must also stay inside the package as written: a target
+		// spelled with the absolute path of the temporary directory, or one
+		// that leaves the package and comes back in through the temporary
+		// directory's name, resolves now but would dangle afterwards.
+		if info.Mode()&os.ModeSymlink != 0 {
+			target, err := os.Readlink(absPath)
+			if err != nil {
+				return fmt.Errorf("failed to read symlink %q: %w", relPath, err)
+			}
+			if filepath.IsAbs(target) || !filepath.IsLocal(filepath.Join(filepath.Dir(relPath), target)) {
+				return fmt.Errorf("module package path %q is a symlink whose target is absolute or leaves the package root", relPath)
+			}
+		}
+
 		// The real referent must also be either a regular file or a directory.
 		// (Not, for example, a Unix device node or socket or other such oddities.)
 		lInfo, err := os.Lstat(realPath)
